@@ -507,7 +507,7 @@ def check_only(run: Run, prog: Program, ctx: Ctx) -> None:
                 run.violation("C14.ONLY", m.qual, "self._process_request passed around",
                               "_process_request is handed out as a callable: it can be invoked outside the "
                               "request loop and the completion handler", node=m.node, file=m.file)
-    if n != 1:
+    if n != 1 and not any(v.rule == "C14.ONLY" for v in run.violations):
         raise AnalysisError(f"C14.ONLY: expected one distribute_power call site, found {n}")
     # nobody else touches the two dictionaries
     for m in cls.methods.values():
@@ -576,9 +576,10 @@ def structural_controls(prog: Program) -> list[tuple[str, str, str, str, str]]: 
     pops = [n.func for m, n in every if isinstance(n, ast.Call) and isinstance(n.func, ast.Attribute)
             and n.func.attr == "pop" and u(n.func.value) == PEND]
     add("get instead of pop", [(f, f"{PEND}.get") for f in pops], "C14.NEXT")
-    # the except arm around task.result() leaves the handler (return in the handler, raise in a helper)
+    # the except arm around task.result() leaves the handler (return in the handler, raise in a helper);
+    # not a defect when the decision is taken in a `finally`
     for m, n in every:
-        if isinstance(n, ast.Try) and n.handlers and any(
+        if isinstance(n, ast.Try) and n.handlers and not n.finalbody and any(
                 isinstance(c, ast.Call) and isinstance(c.func, ast.Attribute) and c.func.attr == "result" and not c.args
                 for b in n.body for c in ast.walk(b)):
             last = n.handlers[0].body[-1]
